@@ -177,8 +177,18 @@ def check_mask(arg):
 def check_history(arg):
     """sequences of line reassignments interleaved with queries: every derived value describes the current line"""
     from ipaddress import NetmaskValueError
-    from cisco_acl.wildcard import Wildcard
-    lines, query_each = arg
+    import cisco_acl
+    lines, query_each = arg[:2]
+    cls = arg[2] if len(arg) > 2 else "Wildcard"
+    if cls == "Wildcard":
+        from cisco_acl.wildcard import Wildcard
+    else:
+        # the same histories one level up: an address object owns a Wildcard and has its own limit attribute
+        C_ = cisco_acl.Address if cls == "Address" else cisco_acl.AddressAg
+        plat = "ios" if cls == "Address" else "nxos"
+
+        def Wildcard(line_, max_ncwb=16):
+            return C_(line_, platform=plat, max_ncwb=max_ncwb)
     fails = []
     w = None
     limit = 4
@@ -194,7 +204,9 @@ def check_history(arg):
             else:
                 w.line = line
             accepted = True
-        except NetmaskValueError:
+        except (NetmaskValueError, ValueError) as ex_:
+            if not isinstance(ex_, NetmaskValueError) and cls == "Wildcard":
+                raise
             accepted = False
         if w is None:
             continue
@@ -209,7 +221,7 @@ def check_history(arg):
                 r_ += 1
             k_ = bin(mv >> r_).count("1") if r_ < 32 else 0
             if k_ > limit:
-                fails.append(dict(key="bounded/Wildcard.history:limit", what=f"after {lines[:i + 1]}: line {line!r} needs {k_} non-contiguous bits but was accepted with limit {limit}",
+                fails.append(dict(key=f"bounded/{cls}.history:limit", what=f"{cls}: after {lines[:i + 1]}: line {line!r} needs {k_} non-contiguous bits but was accepted with limit {limit}",
                                   inputs=dict(lines=list(lines[:i + 1])),
                                   cmd=("import sys; sys.path.insert(0, 'props'); import C05\n"
                                        f"fails, _ = C05.check_history({arg!r})\nprint([f['what'] for f in fails]); sys.exit(1 if fails else 0)\n")))
@@ -224,8 +236,8 @@ def check_history(arg):
             want = (str(fresh.ipnet), [str(n) for n in fresh.ipnets()])
             if got is not None and got != want:
                 kind = "stale" if accepted else "rejected-line-half-applied"
-                fails.append(dict(key=f"bounded/Wildcard.history:{kind}",
-                                  what=f"after {lines[:i + 1]} the object shows line {cur!r} but ipnet/ipnets() = {got[0]}, {got[1][:4]} (a fresh object gives {want[0]}, {want[1][:4]})",
+                fails.append(dict(key=f"bounded/{cls}.history:{kind}",
+                                  what=f"{cls}: after {lines[:i + 1]} the object shows line {cur!r} but ipnet/ipnets() = {got[0]}, {got[1][:4]} (a fresh object gives {want[0]}, {want[1][:4]})",
                                   inputs=dict(lines=list(lines[:i + 1]), query_each=query_each),
                                   cmd=("import sys; sys.path.insert(0, 'props'); import C05\n"
                                        f"fails, _ = C05.check_history({arg!r})\nprint([f['what'] for f in fails]); sys.exit(1 if fails else 0)\n")))
@@ -295,13 +307,14 @@ def main(chk):
     hist = [(h, q) for n in (2, 3) for h in itertools.product(pool, repeat=n) for q in (True, False)]
     if chk.tier == "quick":
         hist = hist[::2]
+    hist += [(h, q, c) for (h, q) in hist[::3] for c in ("Address", "AddressAg")]
     res = pmap(check_history, hist)
     viol = 0
     for fails, _ in res:
         for f in fails:
             viol += 1
             chk.finding(f["key"], f["what"], inputs=f["inputs"], cmd=f["cmd"], key=f["key"])
-    chk.add_bounded("histories of line reassignments on one Wildcard object interleaved with queries (limit 4; includes rejected lines)", len(hist), len(hist),
+    chk.add_bounded("histories of line reassignments and limit changes on one Wildcard object (and, for a third of them, on an Address / AddressAg object that owns one) interleaved with queries (limit 4; includes rejected lines)", len(hist), len(hist),
                     f"all sequences of 2..3 lines over a pool of {len(pool)} (two of them exceed the limit), queried after every step or only at the end",
                     viol, time.time() - t0, [list(hist[5][0])], exhaustive=True)
     chk.assumptions += [
